@@ -67,4 +67,6 @@ fn main() {
             std::process::exit(2);
         }
     }
+    // worker threads abandoned by a watchdog must not keep the process alive
+    std::process::exit(0);
 }
